@@ -127,11 +127,9 @@ class NamespaceFunction(Namespace[symtable.Function]):
                 # free/nonlocal inevitablely exist in outer function namespace
                 # so check is not need here.
                 outer_symbol = outer.symt.lookup(nonlocal_free)
-                if (
-                    outer_symbol.is_assigned()
-                    or outer_symbol.is_parameter()
-                    and not outer_symbol.is_global()
-                ):
+                # the name is born where it is local; a function in between
+                # that assigns it under a `nonlocal` declaration only passes it on
+                if outer_symbol.is_local():
                     outer.inner_nonlocal_names.add(nonlocal_free)
                     self.outer_nonlocal_map[nonlocal_free] = outer
                     if outer_symbol.is_parameter():
@@ -237,11 +235,9 @@ class NamespaceClass(Namespace[symtable.Class]):
                 # free/nonlocal inevitablely exist in outer function namespace
                 # so check is not need here.
                 outer_symbol = outer.symt.lookup(nonlocal_free)
-                if (
-                    outer_symbol.is_assigned()
-                    or outer_symbol.is_parameter()
-                    and not outer_symbol.is_global()
-                ):
+                # the name is born where it is local; a function in between
+                # that assigns it under a `nonlocal` declaration only passes it on
+                if outer_symbol.is_local():
                     outer.inner_nonlocal_names.add(nonlocal_free)
                     self.outer_nonlocal_map[nonlocal_free] = outer
                     if outer_symbol.is_parameter():
